@@ -423,6 +423,16 @@ theorem pushOne_matches_source (B : Backends) (sp rp : Params) (st : St)
     outOf ((genPushOne B).run ⟨sp, rp, st⟩) = pushOne B sp st :=
   I2N.PolicyGen.pushOne_eq B sp rp st h
 
+/-- **one iteration of `pop_states` is `popOne`**: the ROOTS guard, the restriction to the object, the keys `get_state` /
+`get_mode` (default `ra`) written before `get_states` is called, then — only when that call returned — `unset_state` /
+`unset_mode` (default `fa`, read from the SAME `pop_mode` key) written into the same dictionary before `unset_states` is
+called; an exception of the first call ends the iteration with the store and the backend calls it left.  Hypothesis:
+the restriction does not overwrite `pop_state` (the code re-reads it twice afterwards, the hand model does not). -/
+theorem popOne_matches_source (B : Backends) (sp rp : Params) (st : St)
+    (h : (restrict sp).getD "pop_state" "" = sp.getD "pop_state" "") :
+    outOf ((genPopOne B).run ⟨sp, rp, st⟩) = popOne B sp st :=
+  I2N.PolicyGen.popOne_eq B sp rp st h
+
 /-- NV: the image of the standard example satisfies `NoClash` (decided on the concrete dictionary), and the generated
 iteration computes on it: `get_mode=ra`, empty store, default `check_mode`: abort after the root was created. -/
 def spImg : Params :=
@@ -433,6 +443,16 @@ example : NoClash .get spImg ∧ NoClash .set spImg ∧ NoClash .unset spImg := 
 example : (restrict spImg).getD "push_state" "" = spImg.getD "push_state" "" := by decide +kernel
 example : errOf ((genGetOne B0).run ⟨spImg, [], {}⟩).1 = some .abort ∧
     ((genGetOne B0).run ⟨spImg, [], {}⟩).2.st.calls.map (·.kind) = [.checkRoot, .setRoot, .show] := by decide +kernel
+
+/-- NV of `popOne_matches_source`: the same image with `pop_state=launch` (defaults `ra` / `fa`), the state and the root
+present: the hypothesis holds, and the generated iteration gets the state and then removes it (nested check, `get`,
+nested check, `unset`) -/
+def spPop : Params := ("pop_state", "launch") :: spImg
+example : (restrict spPop).getD "pop_state" "" = spPop.getD "pop_state" "" := by decide +kernel
+example : errOf ((genPopOne B0).run ⟨spPop, [], s0⟩).1 = none ∧
+    ((genPopOne B0).run ⟨spPop, [], s0⟩).2.st.calls.map (·.kind) =
+      [.checkRoot, .getRoot, .show, .get, .checkRoot, .getRoot, .show, .unset] ∧
+    "launch" ∉ (((genPopOne B0).run ⟨spPop, [], s0⟩).2.st.store.obj (kImg "image1")).names := by decide +kernel
 
 end Regenerated
 
